@@ -15,8 +15,9 @@ import tempfile
 
 from .common import REPO
 
-TIER0 = os.path.join(REPO, 'vermouth', 'tests', 'data', 'integration_tests', 'tier-0')
-PEPTIDES = {'P': 'dipro-termini', 'S': 'mini-protein1_betasheet', 'H': 'mini-protein2_helix', 'W': 'mini-protein3_trp-cage'}
+TESTS = os.path.join(REPO, 'vermouth', 'tests', 'data', 'integration_tests')
+PEPTIDES = {'P': 'tier-0/dipro-termini', 'S': 'tier-0/mini-protein1_betasheet', 'H': 'tier-0/mini-protein2_helix',
+            'W': 'tier-0/mini-protein3_trp-cage', 'U': 'tier-1/1UBQ'}
 
 
 def multichain_pdb(chains, spacing=60.0):
@@ -25,7 +26,7 @@ def multichain_pdb(chains, spacing=60.0):
     out = ['CRYST1  500.000  500.000  500.000  90.00  90.00  90.00 P 1           1']
     serial = 1
     for ci, code in enumerate(chains):
-        path = os.path.join(TIER0, PEPTIDES[code], 'aa.pdb')
+        path = os.path.join(TESTS, PEPTIDES[code], 'aa.pdb')
         chain_id = 'ABCDEFGHIJ'[ci]
         for line in open(path).read().splitlines():
             if not line.startswith('ATOM'):
@@ -81,6 +82,8 @@ def run_cli(chains, options, on_system):
                 cli.entry()
             except SystemExit as exc:
                 rc = exc.code if isinstance(exc.code, int) else (0 if exc.code is None else 1)
+            except Exception as exc:      # a failing pipeline stage is reported by the caller as a machinery problem
+                rc = 'exception %r' % (exc,)
         files = {}
         for name in sorted(os.listdir(root)):
             if name == 'in.pdb' or os.path.isdir(name):
